@@ -1,6 +1,6 @@
 (* C11 -- Automatic mask minimises the documented penalty over all eight masks. *)
 From Coq Require Import NArith List Bool Arith Lia.
-From FQ Require Import Proofs.PropLemmas Lib.Mat Model.Types Model.Hardcode Model.Default Model.Masking Model.Score Model.Placement Model.Qr
+From FQ Require Import Proofs.PropLemmasBuild Lib.Mat Model.Types Model.Hardcode Model.Default Model.Masking Model.Score Model.Placement Model.Qr
   Spec.Penalty Proofs.Scanner Proofs.ScoreSpec Proofs.Build Proofs.BuildMatrix Proofs.Select.
 Import ListNotations.
 
